@@ -32,6 +32,17 @@ def _mk_flavours(order):
     return {fl: isa.FLAVOURS[fl]() for fl in order}
 
 
+def pinned_mnemonics() -> Dict[str, set]:
+    """mnemonics of the pinned table of spec/Isa.tla per flavour (the specification can only encode those)"""
+    import re
+    src = open(C.SPEC / "Isa.tla").read()
+    def names(block):
+        m = re.search(block + r" == <<(.*?)>>", src, re.S)
+        return set(re.findall(r'E\("(\w+)"', m.group(1))) if m else set()
+    core = names("CoreTable")
+    return {"vanilla": core | names("VanillaTable"), "nv": core | names("NVTable"), "reids": core | names("ReidsTable")}
+
+
 def gen_random_subs(rng: random.Random, n: int, table) -> List[Dict[str, Any]]:
     """Random real subroutines built from the extracted table, encoded and
     decoded by the real code; records for WireTrace."""
@@ -45,14 +56,18 @@ def gen_random_subs(rng: random.Random, n: int, table) -> List[Dict[str, Any]]:
     # flavour objects created once, in a fixed order, and kept alive: a decoder
     # must not depend on which other flavours exist in the process
     keep = _mk_flavours(["vanilla", "nv", "reids"])
+    pinned = pinned_mnemonics()
     for i in range(n):
         fl = rng.choice(["vanilla", "nv", "reids"])
         T = table[fl]
         cl = isa.classes(fl)
+        # instruction classes added after the pinned table have no specified encoding: they are judged by the
+        # uniqueness check of the extracted table only
+        known = [k for k in range(len(T)) if T[k]["mn"] in pinned[fl]]
         ln = rng.choice([0, 1, 2, 3, 5, 8, 13, 21, 40])
         instrs, real = [], []
         for _ in range(ln):
-            k = rng.randrange(len(T))
+            k = rng.choice(known)
             if fl == "vanilla" and T[k]["mn"] in ("meas_basis",):
                 # decided by the exhaustive vectors; keep random streams on classes
                 # whose opcode is unique so that one known clash does not mask others
